@@ -162,7 +162,7 @@ def c09_inst(w, m, n, length=None, core=True, timeout=2400):
     return Inst(name, "verif_c09", "kmer", body, unw, {"w": w, "m": m, "len": ld, "bytes": "symbolic 0x04..=0xFF"},
                 core=core, timeout=timeout, cost=float(nn * (w - m + 2)),
                 unwindset=[("kmer/src/minimiser.rs", r"for\s+\w+\s+in\s+0\.\.self\.buff\.len\(\)", w - m + 3)],
-                mem=(8 if nn >= w + 3 else (4 if nn >= w + 2 else 2)))
+                mem=(8 if nn >= w + 3 else (3 if nn >= w + 2 else 2)))
 
 
 def c09_instances(tier, seed):
@@ -170,7 +170,8 @@ def c09_instances(tier, seed):
     quick = [(1, 1), (2, 1), (2, 2), (3, 2), (3, 3), (4, 2), (5, 3)]
     for (w, m) in quick:
         # quick: every length up to w+2 (w+3 for the smallest windows); thorough: up to w+3 everywhere
-        top = w + 3 if (tier == "thorough" or w <= 2) else w + 2
+        # quick (must stay well below 15 min): every length up to w+2 (w+1 for w >= 4); thorough: up to w+3
+        top = w + 3 if tier == "thorough" else (w + 2 if w <= 3 else w + 1)
         for length in range(0, top + 1):
             out.append(c09_inst(w, m, w + 3, length, timeout=2400))
     if tier == "thorough":
@@ -661,8 +662,6 @@ def c12_instances(tier, seed):
             body(1, n, True)
             body(1, n, False)
         rowindep(1, 2)
-        body(2, 3, True, timeout=2400)
-        body(2, 3, False, timeout=2400)
     else:
         for k in (1, 2, 3):
             for n in range(0, k + 4):
@@ -962,7 +961,7 @@ def c13_instances(tier, seed):
                         "c13_oligo_ascii::<%d, %d, %d>(&RANK_K%d, &INV_K%d, COUNT_K%d)" % (k, n, mask, k, k, k), MAPU,
                         {"clause": "oligo vector: binding vs core, bit-equal", "k": k, "chars": n, "shape (bytes per char)": shape(n, mask),
                          "char values": "symbolic: ASCII 0x04..=0x7F / two-byte U+0080..=U+07FF", "norm": "symbolic", "column": "symbolic", "tables": [k]},
-                        core=core, timeout=1800, cost=60.0 * nb, unwindset=[kmer_loop(nb)], mem=(6 if nb >= 4 else 3),
+                        core=core, timeout=1800, cost=60.0 * nb, unwindset=[kmer_loop(nb)], mem=(6 if nb >= 5 else 3),
                         require_opt=(["opt: string with a two-byte character, non-zero entry"] if mask else [])))
 
     def cgr(n, mask, core=True):
@@ -975,9 +974,8 @@ def c13_instances(tier, seed):
 
     if tier == "quick":
         oligo(1, 3, 0)
-        oligo(2, 4, 0)
+        oligo(2, 3, 0)
         oligo(1, 3, 0b010)
-        oligo(2, 4, 0b0100)
         cgr(0, 0)
         cgr(2, 0)
         cgr(2, 0b10)
@@ -1019,7 +1017,7 @@ def c13_instances(tier, seed):
         out.append(Inst("c13_min_iter_w%d_m%d_l%d" % (w, m, n), "verif_c13m", "pybindings", "c13_min_iter::<%d, %d, %d, %d>()" % (w, m, n, n - w + 3), max(n + 2, w + 2),
                         {"clause": "minimiser iterator: binding vs core after the String is consumed and the object moved", "w": w, "m": m, "len": n},
                         core=(n <= 2), timeout=2400, cost=300.0,
-                        unwindset=[("kmer/src/minimiser.rs", BUFF_LOOP, w - m + 3)], mem=10))
+                        unwindset=[("kmer/src/minimiser.rs", BUFF_LOOP, w - m + 3)], mem=(3 if n <= 2 else 10)))
     return out
 
 
@@ -1271,7 +1269,7 @@ PROPS["C14"].outside = [o for o in PROPS["C14"].outside if not o.startswith("the
 # C09 inductive step
 def c09_step_instances(tier):
     out = []
-    pairs = [(2, 1, 6), (3, 2, 6), (3, 3, 6), (4, 2, 7)] if tier == "quick" else [(1, 1, 6), (2, 1, 8), (2, 2, 8), (3, 2, 8), (3, 3, 8), (4, 2, 9), (4, 1, 8), (5, 3, 9), (8, 5, 10), (31, 31, 33), (31, 28, 33)]
+    pairs = [(2, 1, 6), (3, 2, 6), (3, 3, 6)] if tier == "quick" else [(1, 1, 6), (2, 1, 8), (2, 2, 8), (3, 2, 8), (3, 3, 8), (4, 2, 7), (4, 2, 9), (4, 1, 8), (5, 3, 9), (8, 5, 10), (31, 31, 33), (31, 28, 33)]
     for (w, m, n) in pairs:
         us = [("kmer/src/minimiser.rs", BUFF_LOOP, w - m + 3)]
         out.append(Inst("c09_step_w%d_m%d_n%d" % (w, m, n), "verif_c09i", "kmer", "c09_step::<%d, %d, %d>()" % (w, m, n), max(n + 3, 7, m + 2),
